@@ -121,3 +121,10 @@ Theorem C17_code_validated_location : ltac:(let t := type of @EquivWiring.valida
 Proof. exact (@EquivWiring.validated_location). Qed.
 Print Assumptions C17_code_validated_location.
 
+(* ---- tie to the code (utils/url.py parse_url: the path and query the proxy maps are those of the request line): theorems of coq/Equiv/EquivUrl.v (statements there), re-checked against the definitions
+   regenerated from /repo's working tree; see DESIGN.md 11.8 ---- *)
+From NV Require Equiv.EquivUrl.
+Theorem C17_code_parse_url_tie : ltac:(let t := type of @EquivUrl.parse_url_tie in exact t).
+Proof. exact (@EquivUrl.parse_url_tie). Qed.
+Print Assumptions C17_code_parse_url_tie.
+
